@@ -247,7 +247,7 @@ def hist_units(tier):
     else:
         out = [{"stage": "hist", "first": i, "depth": depth} for i in range(len(ALPHA))]
     out.append({"stage": "hist", "first": None, "depth": 0})
-    out.append({"stage": "bfs", "depth": 3 if tier == "quick" else 4})
+    out.append({"stage": "bfs", "depth": 3 if tier == "quick" else 8})
     return out
 
 
@@ -550,8 +550,8 @@ def describe(tier, seed):
                 "every operation equals its result on a fresh model. Registry: %d graph utilities on every PDAG p<=3 (int, float and bool matrices) and weighted DAG, for every node / "
                 "ordered pair / node subset argument, plus split_data, generators, noise, class constructors and methods, semi (stand-in backend): arguments byte-identical "
                 "afterwards, np.shares_memory(result, argument/model) false, writing 777 into results changes nothing. non-trivial: non-empty history / non-empty graph" % (
-                    len(ALPHA), 2 if tier == "quick" else 4, 3 if tier == "quick" else 4, sum(len(x) for x in graph_functions()) + 12),
+                    len(ALPHA), 2 if tier == "quick" else 4, 3 if tier == "quick" else 8, sum(len(x) for x in graph_functions()) + 12),
         "exhaustive": True,
-        "bounds": {"history_depth_no_dedup": 2 if tier == "quick" else 4, "bfs_depth": 3 if tier == "quick" else 4, "registry_p": 3},
+        "bounds": {"history_depth_no_dedup": 2 if tier == "quick" else 4, "bfs_depth": 3 if tier == "quick" else 8, "registry_p": 3},
         "assumptions": ["the documented out= buffer of cartesian is excepted", "one representative model per class (p = 3)"],
     }
